@@ -171,6 +171,18 @@ def _linearity_case(arg):
                     res.violation("bvp:not-linear-in-the-density", f"V[{a} rho1 + {b} rho2] differs from {a} V1 + {b} V2 by {dev:.2e}", case)
                 else:
                     res.maximum("linearity_residual", dev)
+            # homogeneity over many orders of magnitude (added after seeded change C16-C was missed: an absolute
+            # "this channel is zero" threshold): V[s rho] = s V[rho] for a density WITH anisotropic content
+            for s in (1e-4, 1e-7, 1e-10, 1e5):
+                res.count(len(q))
+                case = {"route": "linearity", "degree": degree, "a": s, "b": s}
+                v = np.asarray(solve_poisson_bvp(g, s * (r1 + r2), tf)(q), dtype=float) / s
+                res.nontrivial(n=len(q))
+                dev = float(np.max(np.abs(v - (v1 + v2))))
+                if _gt(dev, TOL_LIN):
+                    res.violation("bvp:not-homogeneous-in-the-density", f"V[s rho] / s differs from V[rho] by {dev:.2e} for s = {s:g}", case)
+                else:
+                    res.maximum("homogeneity_residual", dev)
     return res.as_dict()
 
 
